@@ -1,10 +1,13 @@
 package props
 
 import (
+	"bufio"
 	"bytes"
 	"fmt"
 	"io"
 	"math/rand"
+	"strings"
+	"testing/iotest"
 
 	"github.com/ulikunitz/lz"
 	"verif/core"
@@ -113,6 +116,11 @@ func (p *c08prop) Plan(tier string, seed int64) []core.Segment {
 	var segs []core.Segment
 	for _, t := range gen.ParserTypes {
 		segs = append(segs, core.Segment{Kind: "corpus:" + t, N: 60}, core.Segment{Kind: t, N: 1400 * m})
+		big := int64(3)
+		if t == "GSAP" || t == "OSAP" {
+			big = 1
+		}
+		segs = append(segs, core.Segment{Kind: "big:" + t, N: big * m, Chunk: 1})
 	}
 	return segs
 }
@@ -158,6 +166,31 @@ func (p *c08prop) Gen(kind string, idx int64, seed int64, tier string) core.Case
 		s = 0
 	}
 	r := core.Rand(s, p.id, kind, idx)
+	if class == "big" {
+		// buffers beyond 64 KiB (and the default configuration), inputs of
+		// several buffer fills, chunkings with large chunks
+		c := gen.SmallCfg(r, typ, gen.Opts{})
+		c.BufferSize = []int{100000, 1 << 18, 65537, 0}[idx%4]
+		c.ShrinkSize, c.BlockSize = 0, []int{0, 4096, 65536}[r.Intn(3)]
+		c.WindowSize = []int{0, 1 << 16, 1 << 20}[r.Intn(3)]
+		n := 300000 + r.Intn(400000)
+		if typ == "GSAP" || typ == "OSAP" {
+			c.BufferSize, c.WindowSize = 1<<17, 1<<16
+			n = 300000
+		}
+		_, stream := gen.Bytes(r, n, c.Hint())
+		cc := C08Case{Cfg: c, Stream: stream}
+		for _, ch := range []int{1000, 4096, 20000, 49152} {
+			var steps []RStep
+			for s := 0; s < n; s += ch {
+				steps = append(steps, RStep{N: ch})
+			}
+			cc.Chunks = append(cc.Chunks, steps)
+		}
+		steps := []RStep{{N: 70000}, {N: 5, Err: 2}, {N: 100000}, {N: 0, Err: 2}, {N: 65536}}
+		cc.Faulty = steps
+		return core.MkCase(p.id, kind, idx, seed, tier, cc)
+	}
 	c := gen.SmallCfg(r, typ, gen.Opts{MaxBuf: 200})
 	var n int
 	switch r.Intn(6) {
@@ -223,12 +256,40 @@ type wrapResult struct {
 // runWrap drives a WrappedParser over the reader until io.EOF. It returns a
 // violation class and message if a C08 clause is refuted.
 func runWrap(cc *C08Case, rd *wrapReader, st *core.Stats) (res *wrapResult, class, msg string) {
+	return runWrapReader(cc, rd, rd, st)
+}
+
+// stdReaders builds readers of different dynamic types from the standard
+// library over the same data (composition, buffering, WriterTo fast paths,
+// one-byte and data-with-error readers).
+func stdReaders(data []byte) map[string]io.Reader {
+	a, b := len(data)/3, 2*len(data)/3
+	return map[string]io.Reader{
+		"bytes.Reader":     bytes.NewReader(data),
+		"strings.Reader":   strings.NewReader(string(data)),
+		"bytes.Buffer":     bytes.NewBuffer(append([]byte(nil), data...)),
+		"bufio.Reader(16)": bufio.NewReaderSize(bytes.NewReader(data), 16),
+		"MultiReader(LimitReader,bytes.Reader,strings.Reader)": io.MultiReader(
+			io.LimitReader(bytes.NewReader(data[:a]), int64(a)), bytes.NewReader(data[a:b]), strings.NewReader(string(data[b:]))),
+		"MultiReader(struct readers)": io.MultiReader(
+			&chunkReader{data: data[:a], chunk: 7}, &chunkReader{data: data[a:b], chunk: 1000}, &chunkReader{data: data[b:]}),
+		"iotest.OneByteReader": iotest.OneByteReader(bytes.NewReader(data)),
+		"iotest.HalfReader":    iotest.HalfReader(bytes.NewReader(data)),
+		"iotest.DataErrReader": iotest.DataErrReader(bytes.NewReader(data)),
+		"io.TeeReader":         io.TeeReader(bytes.NewReader(data), io.Discard),
+	}
+}
+
+// runWrapReader drives a WrappedParser over r; rd (may be a dummy) carries the
+// bookkeeping of the plan reader.
+func runWrapReader(cc *C08Case, r io.Reader, rd *wrapReader, st *core.Stats) (res *wrapResult, class, msg string) {
 	ps, err := NewParserFor(cc.Cfg)
 	if err != nil {
 		return nil, "", ""
 	}
 	res = &wrapResult{}
-	wp := lz.Wrap(rd, ps.P)
+	wp := lz.Wrap(r, ps.P)
+	plain := r != io.Reader(rd)
 	maxCalls := len(cc.Stream) + 600 + 16
 	maxReads := 64 + 8*len(cc.Stream) + 700
 	errorsSeen := 0
@@ -245,6 +306,13 @@ func runWrap(cc *C08Case, rd *wrapReader, st *core.Stats) (res *wrapResult, clas
 			return res, "no-progress", fmt.Sprintf("stream of %d bytes not finished after %d Parse calls and %d reader calls (%d faults)", len(cc.Stream), res.calls, rd.calls, rd.faults)
 		}
 		handed := rd.data[:rd.pos]
+		if plain {
+			// standard readers are not instrumented: everything may have
+			// been handed out already
+			handed = rd.data
+			rd.lastErr = io.EOF
+			rd.pos = len(rd.data)
+		}
 		switch {
 		case perr == nil:
 			if n <= 0 {
@@ -363,6 +431,22 @@ func (p *c08prop) Run(c *core.Case, st *core.Stats) []core.Violation {
 		}
 		st.Inc("chunkings_compared")
 	}
+	// 2b. readers of other dynamic types from the standard library
+	if c.Idx%4 == 0 || len(cc.Stream) > 100000 {
+		for name, r := range stdReaders(cc.Stream) {
+			res, class, msg := runWrapReader(cc, r, &wrapReader{data: cc.Stream, pFrom: -1, pTo: -1}, st)
+			if class != "" {
+				return viol(class, "reader "+name, msg)
+			}
+			if !bytes.Equal(res.dec, cc.Stream) {
+				return viol("eof-before-all-delivered", "reader "+name, fmt.Sprintf("io.EOF after %d of %d bytes", len(res.dec), len(cc.Stream)))
+			}
+			if ok, why := blocksEqual(refRes.blocks, res.blocks); !ok {
+				return viol("chunking-dependent-blocks", "reader "+name, "block sequence differs from the one under full reads: "+why)
+			}
+			st.Inc("standard_library_readers_compared")
+		}
+	}
 	// 3. seeded random fault plan
 	{
 		rd := &wrapReader{data: cc.Stream, steps: cc.Faulty, pFrom: -1, pTo: -1}
@@ -424,7 +508,7 @@ func (p *c08prop) Run(c *core.Case, st *core.Stats) []core.Violation {
 
 func init() {
 	core.Register(&c08prop{base{id: "C08", level: "fault_enumeration",
-		rule:        "for every generated (configuration of one of the 7 parsers with ShrinkSize < BufferSize <= 200, input of length 0..5*BufferSize incl. exact multiples of BlockSize/BufferSize) the wrapped parser is run (1) with full reads (reference block sequence, EOF repeated 3 times), (2) under 4 chunkings (single bytes, random short reads, short reads mixed with (0,nil) reads, data returned together with io.EOF) whose block sequences must equal the reference, (3) under a seeded random multi-fault plan (errors with and without data, optionally a reader that fails persistently for 40 calls), and (4) for inputs <= 400 bytes ALL single fault placements over the first 50 reader calls x {error without data, error with data} and for <= 14 reader calls all double placements x 4 combinations; a recording reader decides what was handed out; non-trivial iff the stream produced at least one block; distinct = distinct concrete case",
+		rule:        "for every generated (configuration of one of the 7 parsers with ShrinkSize < BufferSize <= 200, input of length 0..5*BufferSize incl. exact multiples of BlockSize/BufferSize) the wrapped parser is run (1) with full reads (reference block sequence, EOF repeated 3 times), (2) under 4 chunkings (single bytes, random short reads, short reads mixed with (0,nil) reads, data returned together with io.EOF) and, for a quarter of the cases, under ten readers of other dynamic types from the standard library (bytes/strings readers, bufio, MultiReader of LimitReader and plain struct readers, iotest One-byte/Half/DataErr readers, TeeReader) whose block sequences must equal the reference; 'big' cases repeat this with buffers beyond 64 KiB and the default configuration on inputs of 300-700 kB, (3) under a seeded random multi-fault plan (errors with and without data, optionally a reader that fails persistently for 40 calls), and (4) for inputs <= 400 bytes ALL single fault placements over the first 50 reader calls x {error without data, error with data} and for <= 14 reader calls all double placements x 4 combinations; a recording reader decides what was handed out; non-trivial iff the stream produced at least one block; distinct = distinct concrete case",
 		assumptions: []string{"a one-shot reader error that arrives together with data may be swallowed by Wrap (the property only constrains when an error may be returned)", "io.EOF is signalled by the reader only when its data is exhausted"},
-		mandatory:   []string{"streams_completed", "chunkings_compared", "single_fault_placements", "double_fault_placements", "reader_errors_surfaced", "streams_longer_than_buffer", "streams_multiple_of_buffersize", "persistent_failure_plans", "streams_with_several_blocks"}}})
+		mandatory:   []string{"streams_completed", "chunkings_compared", "standard_library_readers_compared", "single_fault_placements", "double_fault_placements", "reader_errors_surfaced", "streams_longer_than_buffer", "streams_multiple_of_buffersize", "persistent_failure_plans", "streams_with_several_blocks"}}})
 }
